@@ -35,6 +35,16 @@ const IMM_OPS: &[(&str, OpCode)] = &[
     ("ShlIImm", OpCode::ShlIImm), ("ShrIImm", OpCode::ShrIImm), ("AndIImm", OpCode::AndIImm), ("OrIImm", OpCode::OrIImm), ("XorIImm", OpCode::XorIImm),
 ];
 
+fn imm_generic(name: &str) -> (&'static str, OpCode) {
+    match name {
+        "AddI" => ("Add", OpCode::Add), "SubI" => ("Sub", OpCode::Sub),
+        "LtImm" | "LtIImm" => ("Lt", OpCode::Lt), "LeImm" | "LeIImm" => ("Le", OpCode::Le),
+        "GtImm" | "GtIImm" => ("Gt", OpCode::Gt), "GeImm" | "GeIImm" => ("Ge", OpCode::Ge),
+        "ShlIImm" => ("Shl", OpCode::Shl), "ShrIImm" => ("Shr", OpCode::Shr), "AndIImm" => ("BitAnd", OpCode::BitAnd),
+        "OrIImm" => ("BitOr", OpCode::BitOr), _ => ("BitXor", OpCode::BitXor),
+    }
+}
+
 struct Machine {
     vm: VM,
     /// (pointer payload, Some(string content) | None for non-strings)
@@ -239,6 +249,15 @@ fn main() {
             f.finalize_bytecode();
             let o = run(&mut m, f);
             println!("QImm O_{} {} {}\t{}", name, a, c, show(&m, o, None));
+            // the generic opcode of the same operator on (a, Value::int(c)): what the immediate form must equal
+            let (gname, gop) = imm_generic(name);
+            let ci = Value::int(c as i64).raw_bits();
+            let mut g = func(&[a, ci]);
+            g.emit_a(gop, 2, 0, 1, 1);
+            g.emit_a(OpCode::Return, 2, 0, 0, 1);
+            g.finalize_bytecode();
+            let og = run(&mut m, g);
+            println!("QBin O_{} {} {}\t{}", gname, a, ci, show(&m, og, Some((a, ci))));
         }
     }
     // ---- loop super-instructions
@@ -295,6 +314,12 @@ fn main() {
                 Obs::Err(k) => format!("E {}", k),
             };
             println!("QWhile {} {}\t{}", i, l, o);
+            let mut g = func(&[i, l]);
+            g.emit_a(OpCode::Lt, 2, 0, 1, 1);
+            g.emit_a(OpCode::Return, 2, 0, 0, 1);
+            g.finalize_bytecode();
+            let og = run(&mut m, g);
+            println!("QBin O_Lt {} {}\t{}", i, l, show(&m, og, None));
         }
     }
 }
